@@ -186,6 +186,15 @@ RunCalls(St, ac, calls, i, ok) ==
                        [] c.c = "stable"   -> StableR(St, ac)
             IN RunCalls(x.S, ac, calls, i + 1, x.r = c.a)
 
+\* Adf::facet_count / Adf::formulacounts: the model-count half is exact for every term, constants included
+CheckAdfQuery(r) ==
+  LET ns == r.nodes  nv == r.nv IN
+  /\ Report(Len(r.facet_models) = Len(r.terms) /\
+            \A i \in DOMAIN r.terms : ModelsOK(r.facet_models[i], DenN(ns, r.terms[i], nv), Depth(ns, r.terms[i]), nv),
+            r.id, "C13", "facet_count-models")
+  /\ Report(\A i \in DOMAIN r.formulacounts : ModelsOK(r.formulacounts[i], DenN(ns, r.terms[i], nv), Depth(ns, r.terms[i]), nv),
+            r.id, "C13", "formulacounts")
+
 \* ---------------------------------------------------------------- the trace machine
 Drift(id, what) == PrintT(<<"DRIFT", l, id, what>>)
 
@@ -246,6 +255,9 @@ Next ==
             /\ UNCHANGED prev
        [] r.kind = "query" ->
             /\ CheckQuery(r) \in BOOLEAN
+            /\ UNCHANGED <<S, prev, synced>>
+       [] r.kind = "adfquery" ->
+            /\ CheckAdfQuery(r) \in BOOLEAN
             /\ UNCHANGED <<S, prev, synced>>
        [] r.kind = "panic" ->
             /\ Report(FALSE, r.id, "C06", "panic") \in BOOLEAN
